@@ -420,4 +420,4 @@ def st_construction(ctx: Ctx):
                                   "origin": st.sampled_from([0, 0, 0, 1, 2, 3])})
 
 
-PARTS = [Part("constructions", check_construction, strategy=st_construction, quick=2400, thorough=120000)]
+PARTS = [Part("constructions", check_construction, strategy=st_construction, quick=6000, thorough=120000)]
